@@ -275,6 +275,52 @@ CLAIMED["C20"]["text"] = ("Full Lean 4 proof: union-find with path compression a
     "histories against brute force.")
 CLAIMED["C20"]["note"] = TRUST + "the order-generic theorems are about a nondeterministic model of the tree_to_triples loop that contains the driver-tested order."
 
+# ---- build round 2, second wave ----
+CODE_NOTE = (" A second, code-structured model (Model/ThlCode.lean / SpfsCode.lean / UspfsCode.lean: tables of C16 entries with "
+    "tags, role entries, combine calls and decoding as in the Python) is proved to return the same solutions and is "
+    "tied to the real table (entries, values, tag sets).")
+for _p in ("C01", "C02", "C03", "C04", "C05", "C09", "C10"):
+    CLAIMED[_p]["note"] = CLAIMED[_p]["note"].replace(
+        "the model stores decoded solutions per table cell instead of tags; ",
+        "the label-DP model stores decoded solutions per table cell;" + CODE_NOTE + " ")
+CLAIMED["C01"]["text"] += (" The code-structured model of reconcile_thl (two helper functions, eight aggregate entries, "
+    "combinators, tag-following decoder) is proved to refine the label-DP model cell by cell (C01_thlCode_refines).")
+CLAIMED["C02"]["text"] += (" The code-structured model of _spfs (precedence graph + toposort_all, role entries, six combine "
+    "calls, test before scaling, decoder) is proved to refine it (C02_code_refines).")
+CLAIMED["C03"]["text"] = ("Lean 4 proof for binary species trees, inside spe + sloss <= dup + 2*floss: the unordered solvers "
+    "(SuperDTL and base) return exactly the canonical valid solutions of minimum evaluated cost over EVERY valid labelling "
+    "and every species mapping (C03_optimal, C03_ext_exact, C03_full_eq); the exchange argument 'canonical labellings lose "
+    "nothing' is C03_exchange, the oracle's adequacy w.r.t. Spec.validSol is C03_oracle_le / _attained, DP edge charges = "
+    "evaluator on materialised contents is C03_kinds_faithful (unguarded); the unguarded statement is shown false on a "
+    "ternary species tree.  The code-structured model of _compute_uspfs_entry / _decode_uspfs_table is proved to refine the "
+    "label-DP model (C03_code_refines).  Tied to the code by differential runs against brute force over every labelling.")
+CLAIMED["C10"]["text"] = ("Full Lean 4 proof under the property's guards (binary species tree, coherent costs) of all four "
+    "inequalities and the coincidence clauses (C10_guarded): thl <= lca with equality (thl = [lca] when floss > 0) for an "
+    "infinite transfer cost; extended <= base for ordered and unordered solvers; unordered <= ordered (the set labelling "
+    "induced by an ordered optimum is feasible and no dearer: no hypothesis on costs at the oracle level); on single-family "
+    "inputs ordered = unordered = thl and base variants = LCA cost.  The check evaluates the clauses on the real "
+    "algorithms' costs and compares them with the models'.")
+CLAIMED["C11"]["text"] = ("Full Lean 4 proof: a Lean model of the Newick codec as the package uses it (ete3 format-8 writer with "
+    "format_root_node and the color feature; format-1 reader modelled literally) satisfies read (write t) = t for every "
+    "safely named tree of any arity and depth (C11_newick_roundtrip); with it, for uniquely named trees, "
+    "from_dict(to_dict(x)) reproduces trees, leaf assignment, costs (generated cost-name table), mapping, labelling and "
+    "ordered flag for the four classes, hence the same events and cost (C11_roundtrip_newick_*).  The codec model is tied "
+    "to ete3 on exhaustive small trees, random trees, odd names and malformed strings; real round trips through json are "
+    "checked field by field.")
+CLAIMED["C11"]["note"] = TRUST + "json is Python's; the codec model is tied to ete3 3.1.3 by differential runs; names outside SafeNames excluded."
+CLAIMED["C11"]["technique"] = "Lean 4 proof (codec round trip by structural induction; name-keyed association lists) + round-trip correspondence"
+CLAIMED["C15"]["text"] += (" The drawing code itself (_tikz_draw_fork, _tikz_draw_branches, render's species loop) is modelled "
+    "(Model/TikzDraw.lean: layout -> statement instances with exact rational coordinates), every call is proved an "
+    "admissible instance of a generated template with the expected count per branch kind, unconditionally for valid "
+    "reconciliations (C15_draw_valid_all), and the model's text equals the real text byte for byte on every generated case.")
+CLAIMED["C18"]["text"] += (" Second tie: the four function bodies are translated mechanically from the source text on every run "
+    "(harness/translate_py.py) and proved equal to the model (Generated/SubseqPyEquiv.lean), so the theorems are restated "
+    "for what the code says now (C18Code); when the translator cannot parse a harmless rewrite the check falls back to the "
+    "correspondence with the thorough budget, when Lean refutes the equivalence it is a failed obligation.")
+CLAIMED["C18"]["technique"] = "Lean 4 proof + translator-generated equivalence obligations + exhaustive differential correspondence"
+CLAIMED["C12"]["text"] += (" Multifurcating inputs go through the CLI too (ext_spfs / superdtl): every clade the user named "
+    "keeps its name in the written refinement.")
+
 PENDING = "check not built yet in this round (planned: Lean 4 model + proof + correspondence, see DESIGN.md section 7)"
 
 
